@@ -15,7 +15,8 @@
 //	                   pv/padd:<mb>: a delivery past its mailbox lookup before the walk collects the mailboxes,
 //	                   taking the mailbox lock after the first callback (reported as v2/add)
 //	   cancelAt n: the context is cancelled during the n-th callback (RetentionSleep 100 ms); nz / nn: the same
-//	            with RetentionSleep 0 / 1 ns (the select at the callback end is then a race); "-": never
+//	            with RetentionSleep 0 / 1 ns (the select at the callback end is then a race); "-": never;
+//	            "<n>r<m>": cancelled inside the n-th callback at that callback's m-th RemoveMessage call
 //	 => <order of callbacks> <ok|ERR> <callbacks> E=<effective schedule> D=<survivors> R=<removed by the scanner>
 //	dlv <store> <period_s> <wait_s> <dates>            real StoreManager.Deliver of mails with their own Date: headers
 //	 => ok|ERR <surviving message numbers>             (past / future / none / garbled), wait, DoScan: arrival time decides
@@ -78,6 +79,8 @@ type drv struct {
 	callbacks int
 	attempts  int
 	cancelAt  int
+	cancelRm  int // > 0: the cancellation comes at the cancelRm-th RemoveMessage call of callback cancelAt
+	cbRm      int // RemoveMessage calls of the current callback
 	cancel    context.CancelFunc
 	stopped   bool
 	eff       []string
@@ -226,7 +229,9 @@ func (h *hookStore) VisitMailboxes(f func([]storage.Message) bool) error {
 			name = vh.HS(ms[0].Mailbox())
 		}
 		d.order = append(d.order, name)
-		if d.cancelAt > 0 && d.callbacks+1 == d.cancelAt {
+		d.cbRm = 0
+		// (a mailbox with fewer messages than cancelRm cannot reach that removal: cancelled at the callback start)
+		if d.cancelAt > 0 && d.callbacks+1 == d.cancelAt && (d.cancelRm == 0 || len(ms) < d.cancelRm) {
 			d.cancel()
 		}
 		cont := f(ms)
@@ -245,6 +250,10 @@ func (h *hookStore) VisitMailboxes(f func([]storage.Message) bool) error {
 func (h *hookStore) RemoveMessage(mb, id string) error {
 	d := h.d
 	d.attempts++
+	d.cbRm++
+	if d.cancelRm > 0 && d.callbacks+1 == d.cancelAt && d.cbRm == d.cancelRm {
+		d.cancel()
+	}
 	pos := "r" + strconv.Itoa(d.attempts)
 	d.fire(func(in *inj) bool { return in.pos == pos && in.op[0] != "padd" }, pos)
 	// "padd" (at most one per position): a delivery that has already looked its mailbox up when this
@@ -477,6 +486,11 @@ func runScan(in []string) []string {
 			c, sleep = c[:len(c)-1], time.Nanosecond
 		default:
 			sleep = 100 * time.Millisecond // waited for in the callbacks before the cancelled one
+		}
+		// "<n>r<m>": cancelled inside the n-th callback, at that callback's m-th RemoveMessage call
+		if i := strings.IndexByte(c, 'r'); i >= 0 {
+			d.cancelRm = vh.AtoI(c[i+1:])
+			c = c[:i]
 		}
 		d.cancelAt = vh.AtoI(c)
 	}
